@@ -1475,9 +1475,14 @@ func (db *DatabaseCollectionWithUser) PutExistingCurrentVersion(ctx context.Cont
 	docUpdateEvent := ExistingVersion
 	updateRevCache := true
 	originalNewDocAtts := maps.Clone(opts.NewDoc.Attachments())
+	originalNewDoc := captureIncomingRevision(opts.NewDoc)
+	originalRevTreeHistory := opts.RevTreeHistory
 	doc, newRevID, err = db.updateAndReturnDoc(ctx, opts.NewDoc.ID, true, &opts.NewDoc.DocExpiry, nil, docUpdateEvent, opts.ExistingDoc, false, updateRevCache, func(doc *Document) (resultDoc *Document, resultAttachmentData updatedAttachments, createNewRevIDSkipped bool, updatedExpiry *uint32, resultErr error) {
 		// (Be careful: this block can be invoked multiple times if there are races!)
 		opts.NewDoc.SetAttachments(maps.Clone(originalNewDocAtts))
+		// conflict resolution in an earlier attempt may have rewritten the incoming revision and its history
+		originalNewDoc.restore(opts.NewDoc)
+		opts.RevTreeHistory = originalRevTreeHistory
 
 		var isSgWrite bool
 		var crc32Match bool
@@ -1740,9 +1745,14 @@ func (db *DatabaseCollectionWithUser) PutExistingRevWithConflictResolution(ctx c
 	allowImport := true
 	updateRevCache := true
 	originalNewDocAtts := maps.Clone(newDoc.Attachments())
+	originalNewDoc := captureIncomingRevision(newDoc)
 	doc, _, err = db.updateAndReturnDoc(ctx, newDoc.ID, allowImport, &newDoc.DocExpiry, nil, opts.DocUpdateEvent, opts.ExistingDoc, false, updateRevCache, func(doc *Document) (resultDoc *Document, resultAttachmentData updatedAttachments, createNewRevIDSkipped bool, updatedExpiry *uint32, resultErr error) {
 		// (Be careful: this block can be invoked multiple times if there are races!)
 		newDoc.SetAttachments(maps.Clone(originalNewDocAtts))
+		// conflict resolution in an earlier attempt may have rewritten the incoming revision and its history
+		originalNewDoc.restore(newDoc)
+		docHistory = opts.RevTreeHistory
+		newRev = docHistory[0]
 
 		var isSgWrite bool
 		var crc32Match bool
@@ -2017,6 +2027,24 @@ func (db *DatabaseCollectionWithUser) resolveHLVConflict(ctx context.Context, lo
 	default:
 		return nil, nil, fmt.Errorf("Unexpected conflict resolution type: %v", resolutionType)
 	}
+}
+
+// incomingRevision is the part of an incoming revision that conflict resolution rewrites in place (see
+// localWinsConflictResolutionDocumentHandling, resolveDocMerge). Update callbacks that can run more than once restore
+// it at the start of each attempt, so that a retry resolves against the revision that was received.
+type incomingRevision struct {
+	revID   string
+	deleted bool
+	body    Body
+	rawBody []byte
+}
+
+func captureIncomingRevision(doc *Document) incomingRevision {
+	return incomingRevision{revID: doc.RevID, deleted: doc.Deleted, body: doc._body, rawBody: doc._rawBody}
+}
+
+func (r incomingRevision) restore(doc *Document) {
+	doc.RevID, doc.Deleted, doc._body, doc._rawBody = r.revID, r.deleted, r.body, r.rawBody
 }
 
 // resolveConflict runs the conflictResolverFunction with bodies and revision trees from localDoc and remoteDoc.
